@@ -368,7 +368,13 @@ static void *sg_thread(void *v)
 	return NULL;
 }
 
-static void scn_signals(int rounds)
+/*
+ * One signal number is under fire per call (alternating between calls).  iv_signal installs its handler with a full
+ * sa_mask, so the kernel never nests two of its handlers; libtsan however delivers a signal it deferred at the exit of
+ * the next interceptor -- including pthread_spin_lock() called from inside the handler of a different signal -- and the
+ * nested handler then spins on sig_lock, which its own thread holds.  That self-deadlock exists only under the tool.
+ */
+static void scn_signals(int rounds, int signum)
 {
 	long i;
 	uint64_t s = g_seed * 5;
@@ -389,11 +395,11 @@ static void scn_signals(int rounds)
 	while (!atomic_load(&SG.stop)) {
 		int t = rnd(&s) % NSIGT;
 		if (atomic_load(&SG.alive[t])) {
-			pthread_kill(SG.th[t], (rnd(&s) & 1) ? SIGUSR1 : SIGUSR2);
+			pthread_kill(SG.th[t], signum);
 			CNT(cnt_signals, 1);
 		}
 		if ((rnd(&s) & 7) == 0)
-			kill(getpid(), (rnd(&s) & 1) ? SIGUSR1 : SIGUSR2);
+			kill(getpid(), signum);
 		usleep(50);
 	}
 	for (i = 0; i < NSIGT; i++)
@@ -604,7 +610,7 @@ int main(int argc, char **argv)
 		RUN("events", scn_events(1500));
 		RUN("raw", scn_raw(1500));
 		RUN("work", (scn_work(300, 1 + r % 4), scn_work(200, 8)));
-		RUN("signals", scn_signals(60));
+		RUN("signals", scn_signals(60, (r & 1) ? SIGUSR1 : SIGUSR2));
 		RUN("children", scn_children(6));
 		RUN("loops", scn_loops(15));
 		RUN("threads", scn_threads(24));
